@@ -325,11 +325,11 @@ theorem value_step (fv : FieldVal) (tag : Nat) (hv : fv.Valid) (d : Dec) (pre po
   | sint32 i =>
     have e : FieldVal.payload (.sint32 i) tag = encZigZag32 i := hpay _ rfl
     rw [e] at h ⊢
-    exact step_of_scalar _ .int (fun _ => rfl) h (by unfold encZigZag32; exact encVarint_ne_nil _) i (elSint32_enc i hv post)
+    exact step_of_scalar elSint32 .int (fun _ => rfl) h (by unfold encZigZag32; exact encVarint_ne_nil _) i (elSint32_enc i hv post)
   | sint64 i =>
     have e : FieldVal.payload (.sint64 i) tag = encZigZag64 i := hpay _ rfl
     rw [e] at h ⊢
-    exact step_of_scalar _ .int (fun _ => rfl) h (by unfold encZigZag64; exact encVarint_ne_nil _) i (elSint64_enc i hv post)
+    exact step_of_scalar elSint64 .int (fun _ => rfl) h (by unfold encZigZag64; exact encVarint_ne_nil _) i (elSint64_enc i hv post)
   | fixed32 n =>
     have e : FieldVal.payload (.fixed32 n) tag = encFixed32 n := hpay _ rfl
     rw [e] at h ⊢
@@ -396,14 +396,14 @@ theorem value_step (fv : FieldVal) (tag : Nat) (hv : fv.Valid) (d : Dec) (pre po
   | pSint32 vs =>
     obtain ⟨hne0, hall, hlen⟩ : vs ≠ [] ∧ (∀ v ∈ vs, InI32 v) ∧ vs.length * 10 < two64 := by
       unfold FieldVal.Valid at hv; exact hv
-    exact packed_value_step _ encZigZag32 .ints vs none
+    exact packed_value_step elSint32 encZigZag32 .ints vs none
       (fun v hv rest => elSint32_enc v (hall v hv) rest) (fun _ _ => by unfold encZigZag32; exact encVarint_length_pos _)
       (fun v hv => by unfold encZigZag32; exact encVarint_length_le_10 (zigzag_lt_two64 (hall v hv).toI64)) hlen _
       (hpay _ (by simp [FieldVal.encOp, EncOp.wire, FieldVal.wt, hne0, sumSizes_flatten sizeOfZigZag encZigZag32 (fun i => (sizeOfZigZag_exact i).2)])) h
   | pSint64 vs =>
     obtain ⟨hne0, hall, hlen⟩ : vs ≠ [] ∧ (∀ v ∈ vs, InI64 v) ∧ vs.length * 10 < two64 := by
       unfold FieldVal.Valid at hv; exact hv
-    exact packed_value_step _ encZigZag64 .ints vs none
+    exact packed_value_step elSint64 encZigZag64 .ints vs none
       (fun v hv rest => elSint64_enc v (hall v hv) rest) (fun _ _ => by unfold encZigZag64; exact encVarint_length_pos _)
       (fun v hv => by unfold encZigZag64; exact encVarint_length_le_10 (zigzag_lt_two64 (hall v hv))) hlen _
       (hpay _ (by simp [FieldVal.encOp, EncOp.wire, FieldVal.wt, hne0, sumSizes_flatten sizeOfZigZag encZigZag64 (fun i => (sizeOfZigZag_exact i).1)])) h
